@@ -5,10 +5,10 @@ import SemVerif.Lemmas.T1Stmt
 expression level
 
 `St.abs s` is the abstract reading of the root stack of the analysis state (`abstractFold`).
-`Trans s s' evs`: between the two states only call events `evs` were appended to the statement
+`Trans g s s' evs`: between the two states only call events `evs` were appended to the statement
 list, no declaration was made, every operand already held (a literal or a register not above the
 counter of `s`) still denotes the same tree, value tables and registries are unchanged.
-`DenSim ss m d`: whenever the evaluator `m` succeeds without reporting an error from a state whose
+`DenSim g ss m d`: whenever the evaluator `m` succeeds without reporting an error from a state whose
 visible declarations are those of the source scope `ss`, the transition is `Trans` with the events
 of `d` and the returned operand denotes the tree of `d`.
 -/
@@ -55,6 +55,94 @@ theorem abs_push (i : Instr) (s : St) : (s.push i).abs = abstractStep s.abs i :=
 theorem abs_incReg (s : St) : s.incReg.abs = s.abs := abs_of_ctx rfl
 theorem abs_addErr (k : ErrKind) (v : Name) (l o : Nat) (s : St) : (s.addErr k v l o).abs = s.abs := rfl
 
+/-! ### The typed reading (C04) -/
+
+def St.tenv (s : St) : TyEnv := s.root.context.foldl tyStepEnv TyEnv.init
+
+theorem tenv_of_ctx {s s' : St} (h : s'.root.context = s.root.context) : s'.tenv = s.tenv := by
+  unfold St.tenv; rw [h]
+
+theorem tenv_push (i : Instr) (s : St) : (s.push i).tenv = tyStepEnv s.tenv i := by
+  unfold St.tenv
+  show List.foldl tyStepEnv TyEnv.init (s.root.context ++ [i]) = _
+  rw [List.foldl_append]; rfl
+
+theorem tenv_incReg (s : St) : s.incReg.tenv = s.tenv := tenv_of_ctx rfl
+theorem tenv_addErr (k : ErrKind) (v : Name) (l o : Nat) (s : St) : (s.addErr k v l o).tenv = s.tenv := rfl
+
+def cOkOf (g : Globals) : ConstSem → Bool := fun c => g.consts c.name == some c
+def fOkOf (g : Globals) : Func → Bool := fun f => g.funcs f.name == some f
+
+/-- every check of the typed scan passes on the root stack, up to the checks F8 / F9 can fail -/
+def TOK (g : Globals) (R : Ty) (s : St) : Prop :=
+  ∀ pb ∈ typedGo (cOkOf g) (fOkOf g) R s.root.context TyEnv.init 0,
+    ∃ i, s.root.context[pb.1]? = some i ∧ pb.2.known i = true
+
+theorem typedGo_append (c : ConstSem → Bool) (f : Func → Bool) (R : Ty) (i : Instr) : ∀ (l : List Instr) (e : TyEnv) (pos : Nat),
+    typedGo c f R (l ++ [i]) e pos =
+      typedGo c f R l e pos ++ (tyStepBad c f R (l.foldl tyStepEnv e) i).map (fun b => (pos + l.length, b))
+  | [], e, pos => by simp [typedGo]
+  | x :: xs, e, pos => by
+    simp only [List.cons_append, typedGo, List.foldl_cons, List.length_cons]
+    rw [typedGo_append c f R i xs, List.append_assoc]
+    rw [show pos + 1 + xs.length = pos + (xs.length + 1) by omega]
+
+theorem tok_push {g : Globals} {R : Ty} {s : St} (i : Instr) (h : TOK g R s)
+    (hi : ∀ b ∈ tyStepBad (cOkOf g) (fOkOf g) R s.tenv i, b.known i = true) : TOK g R (s.push i) := by
+  unfold TOK at h ⊢
+  intro pb hpb
+  have hctx : (s.push i).root.context = s.root.context ++ [i] := rfl
+  rw [hctx, typedGo_append] at hpb
+  rw [hctx]
+  rcases List.mem_append.mp hpb with hpb | hpb
+  · obtain ⟨j, hj, hk⟩ := h pb hpb
+    refine ⟨j, ?_, hk⟩
+    have hlt : pb.1 < s.root.context.length := by
+      rcases Nat.lt_or_ge pb.1 s.root.context.length with h | h
+      · exact h
+      · rw [List.getElem?_eq_none h] at hj; cases hj
+    rw [List.getElem?_append_left hlt]; exact hj
+  · rw [List.mem_map] at hpb
+    obtain ⟨b, hb, rfl⟩ := hpb
+    refine ⟨i, by simp, hi b hb⟩
+
+theorem tok_of_ctx {g : Globals} {R : Ty} {s s' : St} (hc : s'.root.context = s.root.context) (h : TOK g R s) : TOK g R s' := by
+  unfold TOK at h ⊢; rw [hc]; exact h
+
+theorem tenv_step_decls (e : TyEnv) (i : Instr) (h1 : ∀ v n, i ≠ .fnArg v n) (h2 : ∀ v x, i ≠ .letBinding v x) :
+    (tyStepEnv e i).decls = e.decls := by
+  cases i <;> simp only [tyStepEnv] <;> try rfl
+  all_goals first
+    | exact absurd rfl (h1 _ _)
+    | exact absurd rfl (h2 _ _)
+    | (split <;> rfl)
+
+/-- the environment step touches only the registers the instruction writes (and the alias after
+a call / field read) -/
+theorem reg_cons_ne (e : TyEnv) (ds : List Value) (a q : Nat) (t : Ty) (rest : List (Nat × Ty)) (h : q < a) :
+    ({ regs := (a, t) :: rest, decls := ds } : TyEnv).reg q = ({ regs := rest, decls := ds } : TyEnv).reg q := by
+  unfold TyEnv.reg
+  have : (a == q) = false := by simp; omega
+  simp [List.find?_cons, this]
+
+theorem reg_cons_eq (ds : List Value) (a : Nat) (t : Ty) (rest : List (Nat × Ty)) :
+    ({ regs := (a, t) :: rest, decls := ds } : TyEnv).reg a = some t := by
+  unfold TyEnv.reg; simp [List.find?_cons]
+
+theorem reg_decls (e : TyEnv) (ds : List Value) (q : Nat) : ({ e with decls := ds } : TyEnv).reg q = e.reg q := rfl
+
+theorem tenv_step_stable (e : TyEnv) (i : Instr) (q : Nat) (h : ∀ w, i.writes = some w → q < w) :
+    (tyStepEnv e i).reg q = e.reg q := by
+  cases i <;> simp only [tyStepEnv, Instr.writes] at h ⊢ <;> try rfl
+  all_goals first
+    | (have hq := h _ rfl
+       first
+         | exact reg_cons_ne e _ _ _ _ _ hq
+         | (rw [reg_cons_ne e _ _ _ _ _ (by omega)]; exact reg_cons_ne e _ _ _ _ _ hq)
+         | (split
+            · rw [reg_cons_ne e _ _ _ _ _ (by omega)]; exact reg_cons_ne e _ _ _ _ _ hq
+            · rfl))
+
 /-! ### Registers -/
 
 theorem curReg_push (i : Instr) (s : St) : (s.push i).curReg = s.curReg := by
@@ -87,15 +175,24 @@ theorem reg_of_bound {A B : AbsSt} (h : B.env = A.env) (q : Nat) : B.bound q = A
 that the reading has a tree for -/
 def Held (s : St) (x : ExprResult) : Prop :=
   match x.val with
-  | .prim _ => True
-  | .reg q => q ≤ s.curReg ∧ s.abs.bound q = true
+  | .prim v => x.ty = .prim v.ty
+  | .reg q => (q ≤ s.curReg ∧ s.abs.bound q = true) ∧ s.tenv.reg q = some x.ty
 
 theorem Held.mono {s s' : St} {x : ExprResult} (h : Held s x) (hm : s.curReg ≤ s'.curReg)
-    (hb : ∀ q, s.abs.bound q = true → s'.abs.bound q = true) : Held s' x := by
+    (hb : ∀ q, s.abs.bound q = true → s'.abs.bound q = true)
+    (ht : ∀ q, q ≤ s.curReg → s'.tenv.reg q = s.tenv.reg q) : Held s' x := by
   unfold Held at *
   cases hx : x.val with
-  | prim _ => trivial
-  | reg q => rw [hx] at h; exact ⟨Nat.le_trans h.1 hm, hb q h.2⟩
+  | prim _ => rw [hx] at h; exact h
+  | reg q => rw [hx] at h; exact ⟨⟨Nat.le_trans h.1.1 hm, hb q h.1.2⟩, by rw [ht q h.1.1]; exact h.2⟩
+
+/-- a held operand passes the operand check of the typed scan -/
+theorem Held.operandOk {s : St} {x : ExprResult} (h : Held s x) : operandOk s.tenv x = true := by
+  unfold Held at h
+  unfold SemVerif.operandOk
+  cases hx : x.val with
+  | prim v => rw [hx] at h; simp [h]
+  | reg q => rw [hx] at h; simp [h.2]
 
 theorem Held.regs {s : St} {x : ExprResult} (h : Held s x) : ∀ q ∈ x.regs, q ≤ s.curReg ∧ s.abs.bound q = true := by
   intro q hq
@@ -103,10 +200,11 @@ theorem Held.regs {s : St} {x : ExprResult} (h : Held s x) : ∀ q ∈ x.regs, q
   unfold Held at h
   cases hx : x.val with
   | prim _ => rw [hx] at hq; simp [RVal.regs] at hq
-  | reg r => rw [hx] at hq h; simp [RVal.regs] at hq; subst hq; exact h
+  | reg r => rw [hx] at hq h; simp [RVal.regs] at hq; subst hq; exact h.1
 
-theorem Held.le {s : St} {ty : Ty} {q : Nat} (h : Held s ⟨ty, .reg q⟩) : q ≤ s.curReg := h.1
-theorem Held.bnd {s : St} {ty : Ty} {q : Nat} (h : Held s ⟨ty, .reg q⟩) : s.abs.bound q = true := h.2
+theorem Held.le {s : St} {ty : Ty} {q : Nat} (h : Held s ⟨ty, .reg q⟩) : q ≤ s.curReg := h.1.1
+theorem Held.bnd {s : St} {ty : Ty} {q : Nat} (h : Held s ⟨ty, .reg q⟩) : s.abs.bound q = true := h.1.2
+theorem Held.ty {s : St} {ty : Ty} {q : Nat} (h : Held s ⟨ty, .reg q⟩) : s.tenv.reg q = some ty := h.2
 
 /-! ### The reads invariant (C08)
 
@@ -240,7 +338,7 @@ theorem innerUsed_push (i : Instr) (s : St) (n : Name) : (s.push i).innerUsed n 
 theorem innerUsed_incReg (s : St) (n : Name) : s.incReg.innerUsed n = s.innerUsed n := by
   unfold St.innerUsed St.incReg; rw [frames_mapFrames]; simp [List.any_map, Function.comp_def]
 
-structure Trans (s s' : St) (evs : List DStmt) : Prop where
+structure Trans (g : Globals) (s s' : St) (evs : List DStmt) : Prop where
   out : s'.abs.out = s.abs.out ++ evs
   decls : s'.abs.decls = s.abs.decls
   stable : ∀ x, Held s x → s'.abs.res x = s.abs.res x
@@ -250,40 +348,60 @@ structure Trans (s s' : St) (evs : List DStmt) : Prop where
   rootNames : s'.root.innerNames = s.root.innerNames
   bnd : ∀ q, s.abs.bound q = true → s'.abs.bound q = true
   rd : RdInv s → RdInv s'
+  tstable : ∀ q, q ≤ s.curReg → s'.tenv.reg q = s.tenv.reg q
+  tdecls : s'.tenv.decls = s.tenv.decls
+  tok : ∀ R, TOK g R s → TOK g R s'
 
-theorem Trans.refl (s : St) : Trans s s [] := ⟨by simp, rfl, fun _ _ => rfl, Nat.le_refl _, rfl, fun _ => rfl, rfl, fun _ h => h, fun h => h⟩
+theorem Trans.refl {g : Globals} (s : St) : Trans g s s [] :=
+  ⟨by simp, rfl, fun _ _ => rfl, Nat.le_refl _, rfl, fun _ => rfl, rfl, fun _ h => h, fun h => h,
+   fun _ _ => rfl, rfl, fun _ h => h⟩
 
-theorem Trans.trans {a b c : St} {e1 e2 : List DStmt} (h1 : Trans a b e1) (h2 : Trans b c e2) : Trans a c (e1 ++ e2) :=
+theorem Trans.trans {g : Globals} {a b c : St} {e1 e2 : List DStmt} (h1 : Trans g a b e1) (h2 : Trans g b c e2) : Trans g a c (e1 ++ e2) :=
   ⟨by rw [h2.out, h1.out, List.append_assoc], by rw [h2.decls, h1.decls],
-   fun x hx => by rw [h2.stable x (hx.mono h1.mono h1.bnd), h1.stable x hx],
+   fun x hx => by rw [h2.stable x (hx.mono h1.mono h1.bnd h1.tstable), h1.stable x hx],
    Nat.le_trans h1.mono h2.mono, by rw [h2.vals, h1.vals], fun n => by rw [h2.inner, h1.inner],
-   by rw [h2.rootNames, h1.rootNames], fun q h => h2.bnd q (h1.bnd q h), fun h => h2.rd (h1.rd h)⟩
+   by rw [h2.rootNames, h1.rootNames], fun q h => h2.bnd q (h1.bnd q h), fun h => h2.rd (h1.rd h),
+   fun q hq => by rw [h2.tstable q (Nat.le_trans hq h1.mono), h1.tstable q hq],
+   by rw [h2.tdecls, h1.tdecls], fun R h => h2.tok R (h1.tok R h)⟩
 
-theorem trans_addErr (k : ErrKind) (v : Name) (l o : Nat) (s : St) : Trans s (s.addErr k v l o) [] :=
+theorem Held.of_trans {g : Globals} {s s' : St} {evs : List DStmt} {x : ExprResult} (h : Held s x) (t : Trans g s s' evs) : Held s' x :=
+  h.mono t.mono t.bnd t.tstable
+
+theorem trans_addErr {g : Globals} (k : ErrKind) (v : Name) (l o : Nat) (s : St) : Trans g s (s.addErr k v l o) [] :=
   ⟨by simp [abs_addErr], rfl, fun _ _ => rfl, Nat.le_refl _, rfl, fun _ => rfl, rfl, fun _ h => h,
-   fun h => rd_addErr h k v l o⟩
+   fun h => rd_addErr h k v l o, fun _ _ => rfl, rfl, fun _ h => h⟩
 
-theorem trans_incReg (s : St) : Trans s s.incReg [] :=
+theorem trans_incReg {g : Globals} (s : St) : Trans g s s.incReg [] :=
   ⟨by simp [abs_incReg], by rw [abs_incReg], fun _ _ => by rw [abs_incReg], by rw [curReg_incReg]; omega,
-   vals_incReg s, innerUsed_incReg s, rfl, fun q h => by rw [abs_incReg]; exact h, rd_incReg⟩
+   vals_incReg s, innerUsed_incReg s, rfl, fun q h => by rw [abs_incReg]; exact h, rd_incReg,
+   fun _ _ => by rw [tenv_incReg], by rw [tenv_incReg], fun _ h => tok_of_ctx rfl h⟩
 
 /-- bump the counter, then push an instruction whose abstract step binds only registers above the old counter -/
-theorem trans_incPush (i : Instr) (s : St) (evs : List DStmt)
+theorem trans_incPush {g : Globals} (i : Instr) (s : St) (evs : List DStmt)
     (hout : (abstractStep s.abs i).out = s.abs.out ++ evs) (hdecls : (abstractStep s.abs i).decls = s.abs.decls)
     (hreg : ∀ q, q ≤ s.curReg → (abstractStep s.abs i).reg q = s.abs.reg q)
     (hrd : ∀ q ∈ i.reads, q ≤ s.curReg ∧ s.abs.bound q = true)
-    (hw : ∀ w, i.writes = some w → w = s.incReg.curReg) : Trans s (s.incReg.push i) evs :=
+    (hw : ∀ w, i.writes = some w → w = s.incReg.curReg)
+    (hnd : (∀ v n, i ≠ .fnArg v n) ∧ (∀ v x, i ≠ .letBinding v x))
+    (hty : ∀ R, ∀ b ∈ tyStepBad (cOkOf g) (fOkOf g) R s.tenv i, b.known i = true) : Trans g s (s.incReg.push i) evs :=
   ⟨by rw [abs_push, abs_incReg]; exact hout, by rw [abs_push, abs_incReg]; exact hdecls,
    fun x hx => by
      rw [abs_push, abs_incReg]
      apply AbsSt.res_congr
      intro q hq
      unfold Held at hx; rw [hq] at hx
-     exact hreg q hx.1,
+     exact hreg q hx.1.1,
    by rw [curReg_push, curReg_incReg]; omega, by rw [vals_push, vals_incReg],
    fun n => by rw [innerUsed_push, innerUsed_incReg], rfl,
    fun q h => by rw [abs_push, abs_incReg]; exact bound_step _ _ _ h,
-   fun h => rd_incPush h i hrd hw⟩
+   fun h => rd_incPush h i hrd hw,
+   fun q hq => by
+     rw [tenv_push, tenv_incReg]
+     apply tenv_step_stable
+     intro w hw'
+     rw [hw w hw', curReg_incReg]; omega,
+   by rw [tenv_push, tenv_incReg]; exact tenv_step_decls _ _ hnd.1 hnd.2,
+   fun R h => tok_push i (tok_of_ctx rfl h) (by rw [tenv_incReg]; exact hty R)⟩
 
 /-! ### Source scope against the value tables -/
 
@@ -321,6 +439,26 @@ theorem dvals_lookup {decls : List Name} {vs : List (List (Name × Value))} {ds 
 structure DScope (s : St) (ss : SpecSt) : Prop where
   sc : ScopeRel s ss.tscope
   dv : DVals s.abs.decls s.vals ss.dscope
+  /-- every visible value record is the record of the latest declaration of its internal name -/
+  dk : ∀ fr ∈ s.vals, ∀ n v, assocGet n fr = some v → s.tenv.declOk v = true
+  dn : ∀ d ∈ s.tenv.decls, d.innerName ∈ s.root.innerNames
+
+theorem findSome_mem {α β : Type} (f : α → Option β) : ∀ (l : List α) (b : β), l.findSome? f = some b → ∃ a ∈ l, f a = some b
+  | [], b, h => by simp at h
+  | a :: l, b, h => by
+    rw [List.findSome?_cons] at h
+    cases hf : f a with
+    | some b' => rw [hf] at h; exact ⟨a, by simp, by rw [hf]; exact h⟩
+    | none =>
+      rw [hf] at h
+      obtain ⟨a', ha', h'⟩ := findSome_mem f l b h
+      exact ⟨a', by simp [ha'], h'⟩
+
+theorem dscope_declOk {s : St} {ss : SpecSt} (h : DScope s ss) {n : Name} {v : Value} (hv : s.lookupValue n = some v) :
+    s.tenv.declOk v = true := by
+  unfold St.lookupValue at hv
+  obtain ⟨b, hb, hbv⟩ := findSome_mem _ _ _ hv
+  exact h.dk b.values (by unfold St.vals; exact List.mem_map.mpr ⟨b, hb, rfl⟩) n v hbv
 
 theorem dscope_lookup {s : St} {ss : SpecSt} (h : DScope s ss) (n : Name) :
     (s.lookupValue n).map (pjD s.abs.decls) = (dlookup n ss.dscope).map some := by
@@ -329,8 +467,10 @@ theorem dscope_lookup {s : St} {ss : SpecSt} (h : DScope s ss) (n : Name) :
   rw [List.findSome?_map] at this
   exact this
 
-theorem DScope.of_trans {s s' : St} {ss : SpecSt} {evs : List DStmt} (h : DScope s ss) (t : Trans s s' evs) : DScope s' ss :=
-  ⟨by unfold ScopeRel; rw [t.vals]; exact h.sc, by rw [t.decls, t.vals]; exact h.dv⟩
+theorem DScope.of_trans {g : Globals} {s s' : St} {ss : SpecSt} {evs : List DStmt} (h : DScope s ss) (t : Trans g s s' evs) : DScope s' ss :=
+  ⟨by unfold ScopeRel; rw [t.vals]; exact h.sc, by rw [t.decls, t.vals]; exact h.dv,
+   by rw [t.vals]; intro fr hfr n v hv; unfold TyEnv.declOk; rw [t.tdecls]; exact h.dk fr hfr n v hv,
+   by rw [t.tdecls, t.rootNames]; exact h.dn⟩
 
 theorem declIdx_of_pjD {decls : List Name} {v : Value} {d : Nat} (h : pjD decls v = some d) :
     (decls.findIdx? (· == v.innerName)).getD 999999 = d := by
@@ -341,25 +481,25 @@ theorem declIdx_of_pjD {decls : List Name} {v : Value} {d : Nat} (h : pjD decls 
 /-- the operand denotes `t` and is held -/
 def ResD (s : St) (r : ExprResult) (t : DTree) : Prop := s.abs.res r = t ∧ Held s r
 
-def DenSim (ss : SpecSt) (m : EvalM) (d : Den) : Prop :=
-  ∀ s r s', DScope s ss → m s = (some r, s') → s'.errors = s.errors → Trans s s' d.1 ∧ ResD s' r d.2
+def DenSim (g : Globals) (ss : SpecSt) (m : EvalM) (d : Den) : Prop :=
+  ∀ s r s', DScope s ss → m s = (some r, s') → s'.errors = s.errors → Trans g s s' d.1 ∧ ResD s' r d.2
 
-theorem den_evalLit (ss : SpecSt) (v : PrimVal) : DenSim ss (evalLit v) ([], .lit v) := by
+theorem den_evalLit {g : Globals} (ss : SpecSt) (v : PrimVal) : DenSim g ss (evalLit v) ([], .lit v) := by
   intro s r s' _ hm _
   unfold evalLit at hm
   injection hm with h1 h2
   injection h1 with h1
   subst h1; subst h2
-  exact ⟨Trans.refl s, rfl, trivial⟩
+  exact ⟨Trans.refl s, rfl, rfl⟩
 
-theorem den_evalExt (ss : SpecSt) (tag : Nat) (ty : PrimTy) : DenSim ss (evalExt tag ty) ([.extS tag], .ext tag) := by
+theorem den_evalExt {g : Globals} (ss : SpecSt) (tag : Nat) (ty : PrimTy) : DenSim g ss (evalExt tag ty) ([.extS tag], .ext tag) := by
   intro s r s' _ hm _
   unfold evalExt at hm
   injection hm with h1 h2
   injection h1 with h1
   subst h1; subst h2
   have hc := curReg_incReg s
-  refine ⟨trans_incPush _ _ [.extS tag] ?_ ?_ ?_ ?_ ?_, ?_, ?_, ?_⟩
+  refine ⟨trans_incPush _ _ [.extS tag] ?_ ?_ ?_ ?_ ?_ ?_ ?_, ?_, ⟨?_, ?_⟩, ?_⟩
   · simp [abstractStep, AbsSt.bind_out, AbsSt.emit_out]
   · simp [abstractStep, AbsSt.bind_decls, AbsSt.emit_decls]
   · intro q hq
@@ -367,6 +507,8 @@ theorem den_evalExt (ss : SpecSt) (tag : Nat) (ty : PrimTy) : DenSim ss (evalExt
     rw [AbsSt.bind_reg, if_neg (by omega)]
   · intro q hq; simp [Instr.reads] at hq
   · intro w hw; simp [Instr.writes] at hw; exact hw.symm
+  · exact ⟨fun _ _ h => (nomatch h), fun _ _ h => (nomatch h)⟩
+  · intro R b hb; simp [tyStepBad] at hb
   · rw [abs_push, abs_incReg]
     simp only [abstractStep, AbsSt.res_reg, AbsSt.emit_reg]
     rw [AbsSt.bind_reg, if_pos rfl]
@@ -374,15 +516,22 @@ theorem den_evalExt (ss : SpecSt) (tag : Nat) (ty : PrimTy) : DenSim ss (evalExt
     rw [curReg_push]; exact Nat.le_refl _
   · rw [abs_push, abs_incReg]
     simp [abstractStep, AbsSt.emit_bound, AbsSt.bind_bound]
+  · show (s.incReg.push _).tenv.reg _ = _
+    rw [tenv_push]; exact reg_cons_eq _ _ _ _
 
 
-/-- table entries are stored under their own name -/
+/-- the attribute found under a name is the attribute found under its index -/
+def Attrs.idxOK (a : Attrs) : Prop := ∀ n idx t, a.lookup n = some (idx, t) → a.byIndex idx = some t
+
+/-- table entries are stored under their own name; attribute indices of registered struct types
+are positions, hence distinct -/
 structure GNames (g : Globals) : Prop where
   consts : ∀ n c, g.consts n = some c → c.name = n
   funcs : ∀ n f, g.funcs n = some f → f.name = n
+  attrs : ∀ n name as, g.types n = some (.struct name as) → as.idxOK
 
 theorem den_evalVar {g : Globals} (hn : GNames g) (ref : Bool) (ss : SpecSt) (x : Name) :
-    DenSim ss (evalVar g x) (specVal ref ss (.var x)) := by
+    DenSim g ss (evalVar g x) (specVal ref ss (.var x)) := by
   intro s r s' hs hm he
   unfold evalVar at hm
   dsimp only at hm
@@ -403,7 +552,7 @@ theorem den_evalVar {g : Globals} (hn : GNames g) (ref : Bool) (ss : SpecSt) (x 
       simp only [Option.map_some, Option.some.injEq] at hl
       have hidx := declIdx_of_pjD hl
       have hc := curReg_incReg s
-      refine ⟨trans_incPush _ _ [] ?_ ?_ ?_ ?_ ?_, ?_, ?_, ?_⟩
+      refine ⟨trans_incPush _ _ [] ?_ ?_ ?_ ?_ ?_ ?_ ?_, ?_, ⟨?_, ?_⟩, ?_⟩
       · simp [abstractStep, AbsSt.bind_out]
       · simp [abstractStep, AbsSt.bind_decls]
       · intro q hq
@@ -411,6 +560,9 @@ theorem den_evalVar {g : Globals} (hn : GNames g) (ref : Bool) (ss : SpecSt) (x 
         rw [AbsSt.bind_reg, if_neg (by omega)]
       · intro q hq; simp [Instr.reads] at hq
       · intro w hw; simp [Instr.writes] at hw; exact hw.symm
+      · exact ⟨fun _ _ h => (nomatch h), fun _ _ h => (nomatch h)⟩
+      · intro R b hb
+        simp [tyStepBad, badIf, dscope_declOk hs hv] at hb
       · rw [abs_push, abs_incReg]
         simp only [abstractStep, AbsSt.res_reg]
         rw [AbsSt.bind_reg, if_pos rfl]
@@ -420,6 +572,8 @@ theorem den_evalVar {g : Globals} (hn : GNames g) (ref : Bool) (ss : SpecSt) (x 
         rw [curReg_push]; exact Nat.le_refl _
       · rw [abs_push, abs_incReg]
         simp [abstractStep, AbsSt.bind_bound]
+      · show (s.incReg.push _).tenv.reg _ = _
+        rw [tenv_push]; exact reg_cons_eq _ _ _ _
   | none =>
     rw [hv] at hm hl
     dsimp only at hm
@@ -441,7 +595,7 @@ theorem den_evalVar {g : Globals} (hn : GNames g) (ref : Bool) (ss : SpecSt) (x 
       subst h1; subst h2
       have hcn := hn.consts x c hc
       have hcr := curReg_incReg s
-      refine ⟨trans_incPush _ _ [] ?_ ?_ ?_ ?_ ?_, ?_, ?_, ?_⟩
+      refine ⟨trans_incPush _ _ [] ?_ ?_ ?_ ?_ ?_ ?_ ?_, ?_, ⟨?_, ?_⟩, ?_⟩
       · simp [abstractStep, AbsSt.bind_out]
       · simp [abstractStep, AbsSt.bind_decls]
       · intro q hq
@@ -449,6 +603,9 @@ theorem den_evalVar {g : Globals} (hn : GNames g) (ref : Bool) (ss : SpecSt) (x 
         rw [AbsSt.bind_reg, if_neg (by omega)]
       · intro q hq; simp [Instr.reads] at hq
       · intro w hw; simp [Instr.writes] at hw; exact hw.symm
+      · exact ⟨fun _ _ h => (nomatch h), fun _ _ h => (nomatch h)⟩
+      · intro R b hb
+        simp [tyStepBad, badIf, cOkOf, hcn, hc] at hb
       · rw [abs_push, abs_incReg]
         simp only [abstractStep, AbsSt.res_reg]
         rw [AbsSt.bind_reg, if_pos rfl, hcn]
@@ -456,10 +613,12 @@ theorem den_evalVar {g : Globals} (hn : GNames g) (ref : Bool) (ss : SpecSt) (x 
         rw [curReg_push]; exact Nat.le_refl _
       · rw [abs_push, abs_incReg]
         simp [abstractStep, AbsSt.bind_bound]
+      · show (s.incReg.push _).tenv.reg _ = _
+        rw [tenv_push]; exact reg_cons_eq _ _ _ _
 
 
-theorem den_evalField {g : Globals} (ref : Bool) (ss : SpecSt) (x a : Name) :
-    DenSim ss (evalField g x a) (specVal ref ss (.field x a)) := by
+theorem den_evalField {g : Globals} (hn : GNames g) (ref : Bool) (ss : SpecSt) (x a : Name) :
+    DenSim g ss (evalField g x a) (specVal ref ss (.field x a)) := by
   intro s r s' hs hm he
   unfold evalField at hm
   have hl := dscope_lookup hs x
@@ -504,8 +663,15 @@ theorem den_evalField {g : Globals} (ref : Bool) (ss : SpecSt) (x a : Name) :
               injection h1 with h1
               subst h1; subst h2
               have hc := curReg_incReg s
-              have t1 : Trans s (s.incReg.push (.exprStructValue val idx s.incReg.curReg)) [] := by
-                refine trans_incPush _ _ [] ?_ ?_ ?_ ?_ ?_
+              have hreg : regTy = Ty.struct sn attrs := by
+                cases hd' : decide (Ty.struct sn attrs = regTy) with
+                | true => exact (of_decide_eq_true hd').symm
+                | false => exact absurd (of_decide_eq_false hd') hne
+              have hfty : fieldTy val idx = some aty := by
+                unfold fieldTy; rw [hty]
+                exact hn.attrs sn sn attrs (by rw [hg, hreg]) a idx aty hat
+              have t1 : Trans g s (s.incReg.push (.exprStructValue val idx s.incReg.curReg)) [] := by
+                refine trans_incPush _ _ [] ?_ ?_ ?_ ?_ ?_ ?_ ?_
                 · simp [abstractStep, AbsSt.bind_out]
                 · simp [abstractStep, AbsSt.bind_decls]
                 · intro q hq
@@ -513,7 +679,10 @@ theorem den_evalField {g : Globals} (ref : Bool) (ss : SpecSt) (x a : Name) :
                   rw [AbsSt.bind_reg, if_neg (by omega), AbsSt.bind_reg, if_neg (by omega)]
                 · intro q hq; simp [Instr.reads] at hq
                 · intro w hw; simp [Instr.writes] at hw; exact hw.symm
-              refine ⟨by simpa using t1.trans (trans_incReg _), ?_, ?_, ?_⟩
+                · exact ⟨fun _ _ h => (nomatch h), fun _ _ h => (nomatch h)⟩
+                · intro R b hb
+                  simp [tyStepBad, hty, hfty, badIf, dscope_declOk hs hv] at hb
+              refine ⟨by simpa using t1.trans (trans_incReg _), ?_, ⟨?_, ?_⟩, ?_⟩
               · rw [abs_incReg, abs_push, abs_incReg]
                 simp only [abstractStep, AbsSt.res_reg]
                 have hcc : (St.push (Instr.exprStructValue val idx s.incReg.curReg) s.incReg).incReg.curReg = s.incReg.curReg + 1 := by
@@ -528,6 +697,11 @@ theorem den_evalField {g : Globals} (ref : Bool) (ss : SpecSt) (x a : Name) :
                   rw [curReg_incReg, curReg_push]
                 rw [hcc]
                 simp [abstractStep, AbsSt.bind_bound]
+              · have hcc : (St.push (Instr.exprStructValue val idx s.incReg.curReg) s.incReg).incReg.curReg = s.incReg.curReg + 1 := by
+                  rw [curReg_incReg, curReg_push]
+                rw [tenv_incReg, tenv_push, hcc]
+                simp only [tyStepEnv, hfty]
+                exact reg_cons_eq _ _ _ _
 
 
 /-! ### Pairs and trees -/
@@ -545,8 +719,8 @@ theorem errs_two {a b c : List Err} {d1 d2 : List Err} (h1 : b = a ++ d1) (h2 : 
 theorem push_errors (i : Instr) (s : St) : (s.push i).errors = s.errors := rfl
 theorem incReg_errors (s : St) : s.incReg.errors = s.errors := rfl
 
-theorem den_pair {ss : SpecSt} {l r : EvalM} {dl dr : Den} (o : Op) (hl : DenSim ss l dl) (hr : DenSim ss r dr)
-    (el : EM l) (er : EM r) : DenSim ss (evalPair l o r) (dl.1 ++ dr.1, .op o dl.2 dr.2) := by
+theorem den_pair {g : Globals} {ss : SpecSt} {l r : EvalM} {dl dr : Den} (o : Op) (hl : DenSim g ss l dl) (hr : DenSim g ss r dr)
+    (el : EM l) (er : EM r) : DenSim g ss (evalPair l o r) (dl.1 ++ dr.1, .op o dl.2 dr.2) := by
   intro s res s' hs hm he
   unfold evalPair at hm
   have x1 := (el s).errors_ext
@@ -579,8 +753,8 @@ theorem den_pair {ss : SpecSt} {l r : EvalM} {dl dr : Den} (o : Op) (hl : DenSim
             obtain ⟨t2, r2, h2⟩ := hr s1 rv s2 (hs.of_trans t1) hrs e2
             have hlv : s2.abs.res lv = dl.2 := by rw [t2.stable lv h1, r1]
             have hc := curReg_incReg s2
-            have t3 : Trans s2 (s2.incReg.push (.exprOp o lv rv s2.incReg.curReg)) [] := by
-              refine trans_incPush _ _ [] ?_ ?_ ?_ ?_ ?_
+            have t3 : Trans g s2 (s2.incReg.push (.exprOp o lv rv s2.incReg.curReg)) [] := by
+              refine trans_incPush _ _ [] ?_ ?_ ?_ ?_ ?_ ?_ ?_
               · simp [abstractStep, AbsSt.bind_out]
               · simp [abstractStep, AbsSt.bind_decls]
               · intro q hq
@@ -589,10 +763,14 @@ theorem den_pair {ss : SpecSt} {l r : EvalM} {dl dr : Den} (o : Op) (hl : DenSim
               · intro q hq
                 simp only [Instr.reads, List.mem_append] at hq
                 rcases hq with hq | hq
-                · exact (h1.mono t2.mono t2.bnd).regs q hq
+                · exact (h1.of_trans t2).regs q hq
                 · exact h2.regs q hq
               · intro w hw; simp [Instr.writes] at hw; exact hw.symm
-            refine ⟨by simpa using (t1.trans t2).trans t3, ?_, ?_, ?_⟩
+              · exact ⟨fun _ _ h => (nomatch h), fun _ _ h => (nomatch h)⟩
+              · intro R b hb
+                have hty' : lv.ty = rv.ty := Classical.not_not.mp hne
+                simp [tyStepBad, badIf, (h1.of_trans t2).operandOk, h2.operandOk, hty'] at hb
+            refine ⟨by simpa using (t1.trans t2).trans t3, ?_, ⟨?_, ?_⟩, ?_⟩
             · rw [abs_push, abs_incReg]
               simp only [abstractStep, AbsSt.res_reg]
               rw [AbsSt.bind_reg, if_pos rfl, hlv, r2]
@@ -600,10 +778,12 @@ theorem den_pair {ss : SpecSt} {l r : EvalM} {dl dr : Den} (o : Op) (hl : DenSim
               rw [curReg_push]; exact Nat.le_refl _
             · rw [abs_push, abs_incReg]
               simp [abstractStep, AbsSt.bind_bound]
+            · show (s2.incReg.push _).tenv.reg _ = _
+              rw [tenv_push]; exact reg_cons_eq _ _ _ _
 
-theorem den_tree {ss : SpecSt} {γ : Type} (fm : γ → EvalM) (fd : γ → Den) (t : W γ)
-    (h : ∀ a ∈ t.atoms, DenSim ss (fm a) (fd a) ∧ EM (fm a)) :
-    DenSim ss (runW (t.map fm)) (denTree (t.map fd)) ∧ EM (runW (t.map fm)) := by
+theorem den_tree {g : Globals} {ss : SpecSt} {γ : Type} (fm : γ → EvalM) (fd : γ → Den) (t : W γ)
+    (h : ∀ a ∈ t.atoms, DenSim g ss (fm a) (fd a) ∧ EM (fm a)) :
+    DenSim g ss (runW (t.map fm)) (denTree (t.map fd)) ∧ EM (runW (t.map fm)) := by
   induction t with
   | atom a => simpa [W.map, runW, denTree] using h a (by simp [W.atoms])
   | pair l o r ihl ihr =>
@@ -618,19 +798,20 @@ theorem den_tree {ss : SpecSt} {γ : Type} (fm : γ → EvalM) (fd : γ → Den)
 def argEvents (l : List (EvalM × Den)) : List DStmt := (l.map (·.2.1)).flatten
 def argTrees (l : List (EvalM × Den)) : List DTree := l.map (·.2.2)
 
-theorem den_args {ss : SpecSt} : ∀ (l : List (EvalM × Den)), (∀ x ∈ l, DenSim ss x.1 x.2 ∧ EM x.1) →
+theorem den_args {g : Globals} {ss : SpecSt} : ∀ (l : List (EvalM × Den)), (∀ x ∈ l, DenSim g ss x.1 x.2 ∧ EM x.1) →
     ∀ (tys : List Ty) (s : St) (rs : List ExprResult) (s' : St), DScope s ss →
     evalArgs (l.map (·.1)) tys s = (some rs, s') → s'.errors = s.errors →
-    Trans s s' (argEvents l) ∧ rs.map s'.abs.res = argTrees l ∧ (∀ r ∈ rs, Held s' r)
+    Trans g s s' (argEvents l) ∧ rs.map s'.abs.res = argTrees l ∧ (∀ r ∈ rs, Held s' r) ∧
+    ((rs.zip tys).all fun (a, t) => a.ty == t) = true
   | [], _, tys, s, rs, s', _, hm, _ => by
     simp only [List.map_nil, evalArgs] at hm
     injection hm with h1 h2
     injection h1 with h1
     subst h1; subst h2
-    exact ⟨Trans.refl s, rfl, by intro r hr; cases hr⟩
+    exact ⟨Trans.refl s, rfl, (by intro r hr; cases hr), (by simp)⟩
   | (m, d) :: l, h, tys, s, rs, s', hs, hm, he => by
-    have hmd : DenSim ss m d ∧ EM m := h (m, d) (by simp)
-    have hrest : ∀ x ∈ l, DenSim ss x.1 x.2 ∧ EM x.1 := fun x hx => h x (by simp [hx])
+    have hmd : DenSim g ss m d ∧ EM m := h (m, d) (by simp)
+    have hrest : ∀ x ∈ l, DenSim g ss x.1 x.2 ∧ EM x.1 := fun x hx => h x (by simp [hx])
     have hem : ∀ m' ∈ l.map (·.1), EM m' := by
       intro m' hm'
       rw [List.mem_map] at hm'
@@ -675,22 +856,26 @@ theorem den_args {ss : SpecSt} : ∀ (l : List (EvalM × Den)), (∀ x ∈ l, De
                 subst h1; subst h2
                 obtain ⟨e1, e2⟩ := errs_two x1' x2' he
                 obtain ⟨t1, r1, hd1⟩ := hmd.1 s r s1 hs hms e1
-                obtain ⟨t2, r2, hd2⟩ := den_args l hrest ts s1 rs' s2 (hs.of_trans t1) hrs e2
-                refine ⟨by simpa [argEvents] using t1.trans t2, ?_, ?_⟩
+                obtain ⟨t2, r2, hd2, hz2⟩ := den_args l hrest ts s1 rs' s2 (hs.of_trans t1) hrs e2
+                refine ⟨by simpa [argEvents] using t1.trans t2, ?_, ?_, ?_⟩
                 · simp only [List.map_cons, argTrees]
                   rw [t2.stable r hd1, r1]
                   congr 1
                 · intro x hx
                   simp only [List.mem_cons] at hx
                   rcases hx with rfl | hx
-                  · exact hd1.mono t2.mono t2.bnd
+                  · exact hd1.of_trans t2
                   · exact hd2 x hx
+                · have hrt : r.ty = t := Classical.not_not.mp hne
+                  simp only [List.zip_cons_cons, List.all_cons, hz2, Bool.and_true]
+                  simp [hrt]
 
 theorem den_functionCall {g : Globals} (hn : GNames g) {ss : SpecSt} (f : Name) (l : List (EvalM × Den))
-    (h : ∀ x ∈ l, DenSim ss x.1 x.2 ∧ EM x.1) (s : St) (ty : Ty) (s' : St) (hs : DScope s ss)
+    (h : ∀ x ∈ l, DenSim g ss x.1 x.2 ∧ EM x.1) (s : St) (ty : Ty) (s' : St) (hs : DScope s ss)
     (hm : functionCall g f (l.map (·.1)) s = (some ty, s')) (he : s'.errors = s.errors) :
-    Trans s s' (argEvents l ++ [.callS (.call f (argTrees l))]) ∧
-    s'.abs.reg (s'.curReg + 1) = .call f (argTrees l) ∧ s'.abs.bound (s'.curReg + 1) = true := by
+    Trans g s s' (argEvents l ++ [.callS (.call f (argTrees l))]) ∧
+    s'.abs.reg (s'.curReg + 1) = .call f (argTrees l) ∧ s'.abs.bound (s'.curReg + 1) = true ∧
+    s'.tenv.reg (s'.curReg + 1) = some ty := by
   unfold functionCall at hm
   cases hf : g.funcs f with
   | none => rw [hf] at hm; simp at hm
@@ -711,10 +896,10 @@ theorem den_functionCall {g : Globals} (hn : GNames g) {ss : SpecSt} (f : Name) 
           injection hm with h1 h2
           subst h2
           rw [push_errors, incReg_errors] at he
-          obtain ⟨t1, r1, hheld⟩ := den_args l h fd.params s ps s1 hs ha he
+          obtain ⟨t1, r1, hheld, hzip⟩ := den_args l h fd.params s ps s1 hs ha he
           have hc := curReg_incReg s1
-          have t2 : Trans s1 (s1.incReg.push (.call fd ps s1.incReg.curReg)) [.callS (.call f (argTrees l))] := by
-            refine trans_incPush _ _ _ ?_ ?_ ?_ ?_ ?_
+          have t2 : Trans g s1 (s1.incReg.push (.call fd ps s1.incReg.curReg)) [.callS (.call f (argTrees l))] := by
+            refine trans_incPush _ _ _ ?_ ?_ ?_ ?_ ?_ ?_ ?_
             · simp [abstractStep, AbsSt.emit_out, AbsSt.bind_out, r1, hname]
             · simp [abstractStep, AbsSt.emit_decls, AbsSt.bind_decls]
             · intro q hq
@@ -725,16 +910,30 @@ theorem den_functionCall {g : Globals} (hn : GNames g) {ss : SpecSt} (f : Name) 
               obtain ⟨x, hx, hqx⟩ := hq
               exact (hheld x hx).regs q hqx
             · intro w hw; simp [Instr.writes] at hw; exact hw.symm
-          refine ⟨t1.trans t2, ?_, ?_⟩
+            · exact ⟨fun _ _ h => (nomatch h), fun _ _ h => (nomatch h)⟩
+            · intro R b hb
+              have hall : ps.all (operandOk s1.tenv) = true := by
+                rw [List.all_eq_true]; intro x hx; exact (hheld x hx).operandOk
+              have hfok : fOkOf g fd = true := by simp [fOkOf, hname, hf]
+              simp only [tyStepBad, badIf, hall, hfok, hzip, if_true, List.nil_append, List.append_nil] at hb
+              split at hb
+              · cases hb
+              · simp at hb; subst hb; rfl
+          refine ⟨t1.trans t2, ?_, ?_, ?_⟩
           · rw [abs_push, abs_incReg, curReg_push]
             simp only [abstractStep]
             rw [AbsSt.emit_reg, AbsSt.bind_reg, if_pos rfl, r1, hname]
           · rw [abs_push, abs_incReg, curReg_push]
             simp [abstractStep, AbsSt.emit_bound, AbsSt.bind_bound]
+          · rw [tenv_push, curReg_push]
+            simp only [tyStepEnv]
+            injection h1 with h1
+            rw [← h1]
+            exact reg_cons_eq _ _ _ _
 
 theorem den_evalCall {g : Globals} (hn : GNames g) {ss : SpecSt} (f : Name) (l : List (EvalM × Den))
-    (h : ∀ x ∈ l, DenSim ss x.1 x.2 ∧ EM x.1) :
-    DenSim ss (evalCall g f (l.map (·.1))) (argEvents l ++ [.callS (.call f (argTrees l))], .call f (argTrees l)) := by
+    (h : ∀ x ∈ l, DenSim g ss x.1 x.2 ∧ EM x.1) :
+    DenSim g ss (evalCall g f (l.map (·.1))) (argEvents l ++ [.callS (.call f (argTrees l))], .call f (argTrees l)) := by
   intro s r s' hs hm he
   unfold evalCall at hm
   cases hfc : functionCall g f (l.map (·.1)) s with
@@ -748,11 +947,12 @@ theorem den_evalCall {g : Globals} (hn : GNames g) {ss : SpecSt} (f : Name) (l :
       injection h1 with h1
       subst h1; subst h2
       rw [incReg_errors] at he
-      obtain ⟨t1, r1, b1⟩ := den_functionCall hn f l h s ty s1 hs hfc he
-      refine ⟨by simpa using t1.trans (trans_incReg s1), ?_, ?_, ?_⟩
+      obtain ⟨t1, r1, b1, y1⟩ := den_functionCall hn f l h s ty s1 hs hfc he
+      refine ⟨by simpa using t1.trans (trans_incReg s1), ?_, ⟨?_, ?_⟩, ?_⟩
       · rw [abs_incReg, curReg_incReg]; exact r1
       · exact Nat.le_refl _
       · rw [abs_incReg, curReg_incReg]; exact b1
+      · rw [tenv_incReg, curReg_incReg]; exact y1
 
 
 /-! ### Whole expressions -/
@@ -773,7 +973,7 @@ theorem specArgs_eq (g : Globals) (ref : Bool) (ss : SpecSt) : ∀ (as : List Ex
 
 mutual
 theorem den_exprM {g : Globals} (hn : GNames g) (ss : SpecSt) :
-    ∀ e, DenSim ss (exprM g e) (specExpr false ss e)
+    ∀ e, DenSim g ss (exprM g e) (specExpr false ss e)
   | .mk v rest => by
     unfold exprM specExpr
     simp only [buildTree, Bool.false_eq_true, if_false, precTree]
@@ -786,7 +986,7 @@ theorem den_exprM {g : Globals} (hn : GNames g) (ss : SpecSt) :
       obtain ⟨o, h⟩ := h
       exact ⟨den_chain hn ss rest o a h, em_valM g a⟩
 theorem den_chain {g : Globals} (hn : GNames g) (ss : SpecSt) :
-    ∀ r, ∀ o a, (o, a) ∈ chainTail r → DenSim ss (valM g a) (specVal false ss a)
+    ∀ r, ∀ o a, (o, a) ∈ chainTail r → DenSim g ss (valM g a) (specVal false ss a)
   | none => by intro o a h; simp [chainTail] at h
   | some (op, .mk v rest) => by
     intro o a h
@@ -796,7 +996,7 @@ theorem den_chain {g : Globals} (hn : GNames g) (ss : SpecSt) :
     · rw [ha]; exact den_valM hn ss v
     · exact den_chain hn ss rest o a h
 theorem den_valM {g : Globals} (hn : GNames g) (ss : SpecSt) :
-    ∀ v, DenSim ss (valM g v) (specVal false ss v)
+    ∀ v, DenSim g ss (valM g v) (specVal false ss v)
   | .var n => by unfold valM; exact den_evalVar hn false ss n
   | .lit v => by unfold valM specVal; exact den_evalLit ss v
   | .call f args => by
@@ -808,11 +1008,11 @@ theorem den_valM {g : Globals} (hn : GNames g) (ss : SpecSt) :
       obtain ⟨e, he, rfl⟩ := hx
       exact ⟨den_args' hn ss args e he, em_exprM g e⟩)
     simpa [List.map_map, Function.comp_def] using this
-  | .field v a => by unfold valM; exact den_evalField false ss v a
+  | .field v a => by unfold valM; exact den_evalField hn false ss v a
   | .sub e => by unfold valM specVal; exact den_exprM hn ss e
   | .ext tag ty => by unfold valM specVal; exact den_evalExt ss tag ty
 theorem den_args' {g : Globals} (hn : GNames g) (ss : SpecSt) :
-    ∀ (as : List Expr), ∀ e ∈ as, DenSim ss (exprM g e) (specExpr false ss e)
+    ∀ (as : List Expr), ∀ e ∈ as, DenSim g ss (exprM g e) (specExpr false ss e)
   | [] => by intro e h; cases h
   | a :: as => by
     intro e h
